@@ -20,6 +20,14 @@ CLAIMED = {
     "C20": ("Lean 4 proof (decode∘encode = id, legal key length, encodeAll injective/order-preserving or refused) + differential correspondence of the real dupsort hack functions",
             "Theorems in lean/LsProps/C20.lean about the model of dupSortHackEncodeOne/DecodeOne/Encode: exact recovery of every (key,value) pair for keys of 1..255 bytes, shadow key length 6..511, accepted contents map to strictly increasing (hence distinct) shadow keys that decode to the original list, colliding or out-of-range data is refused with an error. Correspondence stream through the guard-tagged wrappers of the real functions incl. values longer than the space left and zero bytes next to the separator; oracle re-decodes every encoded DBI. The mirror-cycle part is covered with C11's transaction model.",
             "7/C20", ""),
+    "C12": ("Lean 4 proof over arbitrary cleaner histories (induction over event lists; firstSeen bookkeeping = history observer) + differential correspondence of the real cleaner.Worker on a fault-injecting blob store, with an independent implementation-side oracle",
+            "Theorems in lean/LsProps/C12.lean about the model of Worker.RunOnce/SetCommitted (lean/LsModel/Cleaner.lean), for every history, ParseName verdict, interval configuration and fault sequence: only listed names that parse as snapshots (with the prefix) are passed to Delete; nothing first seen in this run or within MustKeepInterval is deleted; the newest snapshot of an instance is deleted only by the stale-instance rule; lastByInstance only holds SetCommitted's arguments; superseded snapshots past the keep window are deleted, at most one such per instance survives a run; a failing List deletes and changes nothing, failing Deletes change no other decision; a disabled / receive-only cleaner lists and deletes nothing. Correspondence: multi-run histories (exhaustive small scope + random) on the real Worker vs the model.",
+            "7/C12",
+            "C12_newest_protected_partial assumes the clock passed to successive RunOnce calls never goes backwards (true of Run: time.Now() carries a monotonic reading); C12_newest_deleted_when_clock_goes_back is the machine-checked counterexample without it, replayed on the real code (known finding D14). Snapshots of one instance sharing a timestamp are outside the compared range (slices.SortFunc is not stable)."),
+    "C19": ("Lean 4 proof (sorted-map algebra; Update = pointwise fold; IterUpdate two-cursor loop = merge-join plan = pointwise spec; unsorted input rejected; EmptyPut) + differential correspondence on real LMDB with a scripted iterator and a map-based reference oracle",
+            "26 theorems in lean/LsProps/C19.lean about the model of strategy.Update / IterUpdate(iterBoth) / EmptyPut / setNewVal over an abstract iterator: key order laws incl. unsigned little-endian integer order on 4/8-byte keys, read-after-write algebra, exact equality with the pointwise specification for all stored contents and inputs, rejection of unsorted input, no-op and dirty-bit characterisation. Correspondence: exhaustive small scope and random large scope on real LMDB DBIs (byte and integer keys, 1..512-byte keys, empty values, unsorted/duplicate inputs, failing decisions), content, error class and LMDB's recorded-transaction bit compared.",
+            "7/C19",
+            "LMDB itself is modelled (sorted map; cursor enumerates the original key sequence; transaction recorded iff a Put / successful Del / Drop happened), validated by the correspondence runs. IterUpdate theorems assume stored keys are valid LMDB keys (1..511 bytes)."),
 }
 
 ALL = ["C%02d" % i for i in range(1, 21)]
